@@ -20,7 +20,8 @@ import c02
 import c03
 
 FUEL = 8
-THEOREMS = ("C11_key_set / C11_key_names / C11_marshal_values / C11_round_trip / C11_getterless_zero")
+THEOREMS = ("C11_key_set_loop / C11_entries_are_selectable_leaves / C11_exported_members / C11_key_names / "
+            "C11_aligned_structure / C11_marshal_runs / C11_unmarshal_runs / C11_round_trip")
 CORR = "Model.CtorGetSet Model.CtorJson Corr.CtorCorr Corr.CtorGetSetCorr Corr.CtorJsonCorr"
 TAGCASES = {"pascal": "TagPascal", "camel": "TagCamel", "lower": "TagLower", "upper": "TagUpper"}
 
@@ -69,6 +70,17 @@ func verifKeys(b []byte) {
 	}
 }
 
+// *p = sentinel k of p's element type (the oracle lives in the package: every leaf can be assigned directly)
+func verifFill(p any, k int) {
+	e := reflect.ValueOf(p).Elem()
+	e.Set(ort.Sentinel(e.Type(), k))
+}
+
+func verifZero(p any) {
+	e := reflect.ValueOf(p).Elem()
+	e.Set(reflect.Zero(e.Type()))
+}
+
 // fn(sentinels base, base+1, ...)
 func verifNew(fn any, base int) any {
 	f := reflect.ValueOf(fn)
@@ -82,12 +94,25 @@ func verifNew(fn any, base int) any {
 
 
 # ------------------------------------------------------------------ generation
-def add_json_tags(rng, pkg, p=0.22):
+def _omitempty_ok(t):
+    """omitempty leaves out false, 0, nil pointers, empty slices/maps/strings -- never a struct value"""
+    if t[0] in ("basic", "ptr", "slice", "map"):
+        return True
+    return t == ctorgen.T_named("time", "Duration") or t == ctorgen.T_named("helper", "Kind")
+
+
+def add_json_tags(rng, pkg, p=0.25):
     for sd in pkg["structs"]:
         for fd in sd["fields"]:
             if len(fd["names"]) == 1 and fd["tag"] is None and rng.random() < p:
                 n = fd["names"][0]
-                key = rng.choice([n.lower() + "_j", "x" + n.lower(), n, n.upper() + "k", "k" + str(rng.randint(1, 99))])
+                r = rng.random()
+                if r < 0.12:
+                    key = "-"                                   # not a member at all (K_json_dash_zeroed, repaired)
+                else:
+                    key = rng.choice([n.lower() + "_j", "x" + n.lower(), n, n.upper() + "k", "k" + str(rng.randint(1, 99))])
+                    if r < 0.4 and _omitempty_ok(fd["ty"]):
+                        key += ",omitempty"
                 fd["tag"] = '`json:"%s"`' % key
 
 
@@ -119,7 +144,7 @@ def precheck(pkg, sd, selected):
     occ, best = c02.selectable(pkg, sd)
     for fd in sd["fields"]:
         t = json_tag_of(fd)
-        if t and (t == "-" or "," in t):
+        if t and any(o != "omitempty" for o in t.split(",")[1:]):
             cls = "out"
     for o in occ:
         if o[3] and o[4]:
@@ -142,8 +167,12 @@ def member_keys(pkg, sd, tagcase):
             fd = next((f for f in sd["fields"] if name in f["names"]), None)
             if fd is not None:
                 tag = json_tag_of(fd)
-        if tag:
-            key = tag
+        if tag == "-":
+            continue
+        if tag and tag.split(",")[0]:
+            key = tag.split(",")[0]
+        elif tag:
+            key = ctorgen._go_pascal(name)
         elif tagcase == "pascal":
             key = ctorgen._go_pascal(name)
         elif tagcase == "camel":
@@ -162,7 +191,8 @@ def keys_collide(pkg, sd, tagcase):
 
 
 def gen_packages(run, n):
-    pkgs, stats = [], {"regenerated": 0, "outside_guard_kept": 0, "fatal_expected": 0}
+    pkgs, stats = [], {"regenerated": 0, "outside_guard_kept": 0, "fatal_expected": 0, "key_collision_kept": 0,
+                   "key_collision_regenerated": 0}
     k = 0
     while len(pkgs) < n:
         k += 1
@@ -187,12 +217,17 @@ def gen_packages(run, n):
         classes = [precheck(pkg, sd, selected) for sd in pkg["structs"]]
         tagcase = run.rng.choice(sorted(TAGCASES))
         # member names that collide under case folding: encoding/json drops such fields (not modelled)
-        if any(keys_collide(pkg, sd, tagcase) for sd in pkg["structs"] if sd["name"] in selected):
+        collide = any(keys_collide(pkg, sd, tagcase) for sd in pkg["structs"] if sd["name"] in selected)
+        if collide and "bad" not in classes and run.rng.random() < 0.05:
+            classes = ["out" if x == "in" else x for x in classes] + ["collision"]     # K_json_key_collision class
+        elif collide:
             classes.append("bad")
-        if "bad" in classes or (classes.count("out") and run.rng.random() < 0.8):
+        if "bad" in classes or (classes.count("out") and "collision" not in classes and run.rng.random() < 0.9):
             stats["regenerated"] += 1
+            stats["key_collision_regenerated"] += 1 if collide else 0
             if k < 60 * n:
                 continue
+        stats["key_collision_kept"] += 1 if "collision" in classes else 0
         pkg["order"] = selected                       # declaration order = dependency order (complete view)
         pkg["rounds"] = 1
         pkg["getset"] = getset
@@ -205,12 +240,17 @@ def gen_packages(run, n):
 
 
 # ------------------------------------------------------------------ oracle text
-def oracle_for_struct(pkg, sd, inst, key):
+def oracle_for_struct(pkg, sd, inst, key, has_json=True):
     T = sd["name"] + ctorlib.inst_suffix(inst)
     lf, em = ctoracc.leaves(pkg, sd, inst)
     cid = "%s.%s" % key
     lines = ['\tort.Block(%s, func() {' % json.dumps(cid),
              '\t\tv := verifNew(New%s, 0).(*%s)' % (T, T), '\t\t_ = v']
+    for i, (p, t) in enumerate(lf):
+        if i % 5 == 4:
+            lines.append('\t\tverifZero(&v.%s)' % ".".join(p))      # some zero leaves in v (omitempty, "v's value" = zero)
+        else:
+            lines.append('\t\tverifFill(&v.%s, %d)' % (".".join(p), 200 + i))
     for p, t in lf:
         path = ".".join(p)
         lines.append('\t\tverifJ("L", %s, func() any { return v.%s })' % (json.dumps(path), path))
@@ -219,6 +259,13 @@ def oracle_for_struct(pkg, sd, inst, key):
     lines.append('\t\tif err != nil { ort.Note("X", "marshal", strconv.Quote(err.Error())); return }')
     lines.append('\t\tverifKeys(b)')
     lines.append('\t\tw := verifNew(New%s, 50).(*%s)' % (T, T))
+    for i, (p, t) in enumerate(lf):
+        if not has_json and t[0] == "map":
+            # without generated JSON code encoding/json decodes straight into w's field and MERGES into an existing
+            # map (the generated code assigns a freshly decoded one): start from a nil map there
+            lines.append('\t\tverifZero(&w.%s)' % ".".join(p))
+        else:
+            lines.append('\t\tverifFill(&w.%s, %d)' % (".".join(p), 301 + i))
     for p, t in lf:
         path = ".".join(p)
         lines.append('\t\tverifJ("B", %s, func() any { return w.%s })' % (json.dumps(path), path))
@@ -295,10 +342,9 @@ def observe(run, shoot, accbin, modname, pkgs):
             o["has_json"] = "MarshalJSON" in own and "UnmarshalJSON" in own
             sh = info["structs"].get("_json_" + sd["name"])
             o["shadow"] = [(f[0], f[1], f[2]) for f in sh["fields"]] if sh else []
-            if o["has_json"]:
-                inst = ctorlib.inst_for(sd, run.rng)
-                body += oracle_for_struct(pkg, sd, inst, key)
-                sd["_observed"] = True
+            inst = ctorlib.inst_for(sd, run.rng)
+            body += oracle_for_struct(pkg, sd, inst, key, o["has_json"])
+            sd["_observed"] = True
         if body:
             text = "".join(ctoracc.render_go(pkg, modname).values())
             bodies[pkg["name"]] = oracle_file(pkg, body, '"time"' in text, "/helper" in text, modname)
@@ -314,7 +360,7 @@ def observe(run, shoot, accbin, modname, pkgs):
         for sd in pkg["structs"]:
             key = (pkg["name"], sd["name"])
             o = obs.get(key)
-            if o is None or o["status"] != 0 or not o["has_json"]:
+            if o is None or o["status"] != 0:
                 continue
             c = cases.get("%s.%s" % key)
             if c is None:
@@ -573,8 +619,100 @@ def h_aio_stale(run, shoot):
     return h
 
 
+DASH_TEST = '''package p
+
+import (
+	"encoding/json"
+	"testing"
+)
+
+func TestW(t *testing.T) {
+	b, _ := json.Marshal(NewConf("sec", 5, "n"))
+	w := NewConf("keep", 9, "m")
+	err := json.Unmarshal(b, w)
+	t.Logf("AFTER secret=%q hid=%d name=%q err=%v", w.Secret, w.hid, w.name, err)
+}
+'''
+
+
+def h_dash_zeroed(run, shoot):
+    def h(e):
+        r, gen, d = ctor_findings._run(run, shoot, e)
+        if r["rc"] != 0:
+            return "other: exit %s: %s" % (r["rc"], r["err"][-200:])
+        rc, out = _build_and_test(run, d, DASH_TEST, "w_test.go")
+        if 'AFTER secret="keep" hid=9 name="n"' in out:
+            return "correct"
+        if 'AFTER secret="" hid=0' in out:
+            return "buggy"
+        return "other: %s" % out[-300:]
+    return h
+
+
+COLLISION_TEST = '''package p
+
+import (
+	"encoding/json"
+	"testing"
+)
+
+func TestW(t *testing.T) {
+	b, _ := json.Marshal(NewConf(1, 2, "n"))
+	t.Logf("JSON %s", b)
+}
+'''
+
+
+def h_key_collision(run, shoot):
+    def h(e):
+        r, gen, d = ctor_findings._run(run, shoot, e)
+        if r["rc"] != 0:
+            return "correct" if not r["panicked"] and not r["timed_out"] else "other: panic/timeout"     # refused with a diagnostic
+        rc, out = _build_and_test(run, d, COLLISION_TEST, "w_test.go")
+        if 'JSON {"name":"n"}' in out:
+            return "buggy"
+        if '"maxsize"' in out.lower() and out.lower().count("maxsize") >= 1 and '"name":"n"' in out:
+            return "correct"
+        return "other: %s" % out[-300:]
+    return h
+
+
+BY_NAME_TEST = '''package p
+
+import (
+	"encoding/json"
+	"testing"
+)
+
+func TestW(t *testing.T) {
+	w := &Base{}
+	w.size = "own"
+	w.User.size = "inner"
+	err := json.Unmarshal([]byte(`{"size":"X"}`), w)
+	t.Logf("AFTER own=%q inner=%q err=%v", w.size, w.User.size, err)
+}
+'''
+
+
+def h_accessor_by_name(run, shoot):
+    def h(e):
+        r, gen, d = ctor_findings._run(run, shoot, e)
+        if r["rc"] != 0:
+            return "other: exit %s: %s" % (r["rc"], r["err"][-200:])
+        rc, out = _build_and_test(run, d, BY_NAME_TEST, "w_test.go")
+        if 'AFTER own="own" inner="X"' in out:
+            return "buggy"
+        if 'AFTER own="own" inner="inner"' in out or 'AFTER own="X" inner="inner"' in out:
+            return "correct"
+        return "other: %s" % out[-300:]
+    return h
+
+
 def finding_handlers(run, shoot):
     return {
+        "K_json_accessor_by_name": h_accessor_by_name(run, shoot),
+        "K_json_dash_zeroed": h_dash_zeroed(run, shoot),
+        "K_json_key_collision": h_key_collision(run, shoot),
         "K_aio_overlay_stale": h_aio_stale(run, shoot),
         "K_json_tag_transformed": h_tag_transformed(run, shoot),
         "K_json_getter_only_setters": h_getter_only_setters(run, shoot),
@@ -637,13 +775,14 @@ def main(run):
                 continue
             nstructs += 1
             if not o["has_json"]:
-                bump("no_json_needed")
-                continue
+                bump("no_json_code_default_encoding_judged")
             nmarsh += 1
             bump("keys", len(o["keys"]))
             zs = dict((tuple(p), t) for p, t in o["zeros"])
             lv = dict((tuple(p), t) for p, t in o["leaves"])
             bump("explicit_tags", sum(1 for fd in sd["fields"] if json_tag_of(fd)))
+            bump("dash_tags", sum(1 for fd in sd["fields"] if json_tag_of(fd) == "-"))
+            bump("omitempty_tags", sum(1 for fd in sd["fields"] if "omitempty" in json_tag_of(fd)))
             bump("exported_snake_fields", sum(1 for fd in sd["fields"] for n in fd["names"] if n[:1].isupper() and "_" in n))
             bump("promoted_keys", max(0, len(o["keys"]) - sum(len(fd["names"]) for fd in sd["fields"] if fd["names"])))
             bump("fields_changed_by_unmarshal", sum(1 for (p, a), (_, b) in zip(o["after"], o["before"]) if a != b))
@@ -660,11 +799,26 @@ def main(run):
                         "source": "".join(ctoracc.render_go(pkg, "c11mod").values())[:1500],
                         "observed": [obs[(pkg["name"], t)] for t in pkg["order"][:2] if (pkg["name"], t) in obs],
                         "verdict": verdicts.get(i, 0)})
-    vd = {}
-    for i in range(len(pkgs)):
-        vd[verdicts.get(i, 0)] = vd.get(verdicts.get(i, 0), 0) + 1
+    vd, why3 = {}, {}
+    v_eq_w = leaves_total = 0
+    for i, pkg in enumerate(pkgs):
+        v = verdicts.get(i, 0)
+        vd[v] = vd.get(v, 0) + 1
+        if v == 3:
+            unobs = any(obs[(pkg["name"], t)]["status"] != 0 for t in pkg["order"] if (pkg["name"], t) in obs)
+            reason = ("key_collision_class" if "collision" in pkg["classes"] else
+                      "python_precheck_outside_guard" if "out" in pkg["classes"] else
+                      "struct_not_observed" if unobs else "coq_guard_only")
+            why3[reason] = why3.get(reason, 0) + 1
+        for t in pkg["order"]:
+            o = obs.get((pkg["name"], t))
+            if o and o["status"] == 0:
+                bd = dict((tuple(p), x) for p, x in o["before"])
+                for p, x in o["leaves"]:
+                    leaves_total += 1
+                    v_eq_w += 1 if bd.get(tuple(p)) == x else 0
     cov = {
-        "evaluations": sum(1 + (2 if o["has_json"] else 0) for o in obs.values()),
+        "evaluations": sum(3 for o in obs.values() if o["status"] == 0) + sum(1 for o in obs.values() if o["status"] != 0),
         "distinct_nontrivial": len(nontrivial),
         "rule": ("%d generated packages of 1..5 struct declarations of the C03 grammar (get/set field directives, type-level "
                  "getter/setter directives, value/pointer embedding of earlier shoot structs to depth 3, generics, name forms "
@@ -682,6 +836,9 @@ def main(run):
         "structs_observed_in_agreeing_packages": nstructs,
         "structs_with_json_code": nmarsh,
         "package_verdicts": {str(k): v for k, v in sorted(vd.items())},
+        "verdict_3_reasons": why3,
+        "verdict_2_packages_incl_alignment_failures": sum(1 for v in verdicts.values() if v == 2),
+        "leaves_compared": leaves_total, "leaves_with_v_eq_w": v_eq_w,
         "feature_counts": feat,
         "generator": gstats,
         "l1_transfer_calls": ncalls, "l1_directive_calls": dcalls, "l1_skipped": probe is None,
@@ -697,7 +854,8 @@ TRUSTED = [
     "struct lists its fields in order under the tag's name (up to the first comma; the Go field name when empty; `-` drops "
     "the field), json.Unmarshal into a zero shadow struct gives each field the member of its name (else zero).  The "
     "round-trip theorem takes these as Section hypotheses (decode (encode kv) = kv for distinct case-folded plain keys); "
-    "options such as omitempty are outside the guard",
+    "the option omitempty is modelled (a zero member is left out; generated on non-struct field types only), other options "
+    "are outside the guard",
     "values are compared through their raw JSON text (json.Marshal of each leaf): leaf types whose JSON encoding is not "
     "injective could hide a difference",
     "the JSON part of constructor.tmpl is given as (shadow struct fields, MarshalJSON = getters + exported fields into the "
